@@ -45,8 +45,8 @@ const (
 )
 
 var secNames = map[string][]string{
-	"a": {"len", "index", "index_int64", "index_uint8", "to_bytes", "from_bytes", "append", "copy_into_2", "copy_into_5"},
-	"r": {"range", "range_keys", "range_count", "to_runes", "from_runes", "unicode_utf8"},
+	"a": {"len", "index", "index_int64", "index_uint8", "to_bytes", "from_bytes", "append", "copy_into_2", "copy_into_5", "named_to_bytes", "named_from_bytes"},
+	"r": {"range", "range_keys", "range_count", "to_runes", "from_runes", "unicode_utf8", "named_to_runes", "named_from_runes"},
 	"x": {"index_bounds", "index_bounds_int64", "slice", "slice_low_only", "slice_high_only"},
 	"e": {"literal_vs_runtime", "concatenated_vs_literal", "len"},
 	"m": {"map_and_switch_lookup", "map_len"},
@@ -331,6 +331,10 @@ func (co *collector) add(d diff) {
 		co.groups[k] = a
 	}
 	a.count++
+	// keep the smallest example (deterministic, and the most readable)
+	if f := a.first; len(d.e.desc) < len(f.e.desc) || (len(d.e.desc) == len(f.e.desc) && d.e.desc+d.e.src+d.want < f.e.desc+f.e.src+f.want) {
+		a.first = d
+	}
 }
 
 func isPanicTok(t string) bool { return strings.HasSuffix(t, "=P") || strings.HasSuffix(t, "=Q") }
@@ -438,7 +442,17 @@ func runProgram(c *core.Ctx, pool *gjs.Pool, p *program, co *collector, st *stat
 		os.WriteFile(filepath.Join(dir, "expected.txt"), []byte(p.expected()), 0o644)
 	}
 	t0 := time.Now()
-	b := pool.RunBoth(c.Scratch, prog, gjs.Opts{}, 10*time.Minute, true, false)
+	var b gjs.Both
+	for attempt := 0; attempt < 3; attempt++ {
+		b = pool.RunBoth(c.Scratch, prog, gjs.Opts{}, 10*time.Minute, true, false)
+		// "fail"/"timeout" ends are not outcomes of these programs (they always
+		// return from main): on an overloaded machine the output pipe of a child
+		// is sometimes cut (exec: WaitDelay expired) -- run again before giving up
+		if b.BuildErr == nil && b.NativeErr == "" && (b.JS.End == "fail" || b.JS.End == "timeout" || b.Native.End == "fail" || b.Native.End == "timeout") {
+			continue
+		}
+		break
+	}
 	if os.Getenv("VERIF_VERBOSE") != "" {
 		fmt.Fprintf(os.Stderr, "[C14] program with %d lines (%d bytes of source, kinds %s..): %.1fs\n", len(p.exp), len(prog.Files["main.go"]), p.exp[0].kind, time.Since(t0).Seconds())
 	}
@@ -461,6 +475,10 @@ func runProgram(c *core.Ctx, pool *gjs.Pool, p *program, co *collector, st *stat
 	}
 	if len(b.Native.Lines) != len(p.exp) || b.Native.End != "exit" {
 		c.Infra(fmt.Errorf("native run printed %d lines, want %d (end=%s %s)", len(b.Native.Lines), len(p.exp), b.Native.End, b.Native.Msg))
+		return
+	}
+	if b.JS.End == "timeout" || b.JS.End == "fail" {
+		c.Infra(fmt.Errorf("node run of a string table program of %d lines ended with %s %s (three attempts)", len(p.exp), b.JS.End, b.JS.Msg))
 		return
 	}
 	if len(b.JS.Lines) != len(p.exp) || b.JS.End != "exit" {
